@@ -1,5 +1,6 @@
 import NixModel.Pure.Units
 import NixModel.Lemmas.UnitsLemmas
+import NixModel.Lemmas.UnitsRel
 
 /-!
 # C09 — SI unit recognition and scaling are exact and consistent
@@ -71,11 +72,95 @@ theorem sanitizer_clean (s : Str) :
     containsSub ['m', 'u'] (sanitizer s) = false :=
   sanitizer_is_clean s
 
+
+/-! ## Every power text
+
+`PowerText w` holds for *every* text of the POWER grammar regenerated from the source
+(`^`, optional sign, a digit 1–9, any number of further digits) and for the empty text; the
+statements below are the ones above without the bound −3…3 (structural proofs, no enumeration of
+powers; only `prefix ++ unit` is closed over the generated tables). -/
+
+/-- every prefix–unit–power combination, with a power of any number of digits, is atomic, SI, and is
+split into exactly that triple -/
+theorem split_all_powers (p u w : Str) (hp : p ∈ optPrefixes) (hu : u ∈ units) (hw : PowerText w) :
+    isAtomic (p ++ u ++ w) = true ∧ isSi (p ++ u ++ w) = true ∧
+    split (p ++ u ++ w) = (p, u, w.drop 1) :=
+  ⟨(atomic_generic p u w hp hu hw).1, (atomic_generic p u w hp hu hw).2, split_generic p u w hp hu hw⟩
+
+/-- the value `scaling` raises the prefix ratio to: the signed decimal number the power text spells
+(never 0), 1 without a power text -/
+theorem power_value (sign : Str) (d : Char) (ds : Str) (hs : sign = [] ∨ sign = ['+'] ∨ sign = ['-'])
+    (hd : isDigit19 d = true) (hds : ds.all isDigit = true) :
+    powVal ('^' :: sign ++ d :: ds) =
+      (if sign = ['-'] then -(natOfDigits (d :: ds) : Int) else (natOfDigits (d :: ds) : Int)) ∧
+    0 < natOfDigits (d :: ds) ∧ powVal [] = 1 :=
+  ⟨powVal_generic sign d ds hs hd hds, natOfDigits_pos d ds hd, rfl⟩
+
+/-- scaling is the prefix ratio raised to the power, for every integer power the grammar can spell
+(negative powers invert the ratio: `zpow`) -/
+theorem scaling_ratio_all_powers (p₁ p₂ u w : Str) (h₁ : p₁ ∈ optPrefixes) (h₂ : p₂ ∈ optPrefixes)
+    (hu : u ∈ units) (hw : PowerText w) :
+    scalable (p₁ ++ u ++ w) (p₂ ++ u ++ w) = true ∧
+    scaling (p₁ ++ u ++ w) (p₂ ++ u ++ w) = .ok (tenPow (expOf p₁ - expOf p₂) ^ powVal w) :=
+  scaling_atoms_generic p₁ p₂ u w h₁ h₂ hu hw
+
+theorem scaling_compose_all_powers (p₁ p₂ p₃ u w : Str) (h₁ : p₁ ∈ optPrefixes) (h₂ : p₂ ∈ optPrefixes)
+    (h₃ : p₃ ∈ optPrefixes) (hu : u ∈ units) (hw : PowerText w) :
+    ∃ x y z : Rat, scaling (p₁ ++ u ++ w) (p₂ ++ u ++ w) = .ok x ∧
+      scaling (p₂ ++ u ++ w) (p₃ ++ u ++ w) = .ok y ∧
+      scaling (p₁ ++ u ++ w) (p₃ ++ u ++ w) = .ok z ∧ x * y = z :=
+  ⟨_, _, _, (scaling_atoms_generic p₁ p₂ u w h₁ h₂ hu hw).2, (scaling_atoms_generic p₂ p₃ u w h₂ h₃ hu hw).2,
+    (scaling_atoms_generic p₁ p₃ u w h₁ h₃ hu hw).2, ratio_compose _ _ _ _⟩
+
+theorem scaling_invert_all_powers (p₁ p₂ u w : Str) (h₁ : p₁ ∈ optPrefixes) (h₂ : p₂ ∈ optPrefixes)
+    (hu : u ∈ units) (hw : PowerText w) :
+    ∃ x y : Rat, scaling (p₁ ++ u ++ w) (p₂ ++ u ++ w) = .ok x ∧
+      scaling (p₂ ++ u ++ w) (p₁ ++ u ++ w) = .ok y ∧ x * y = 1 :=
+  ⟨_, _, (scaling_atoms_generic p₁ p₂ u w h₁ h₂ hu hw).2, (scaling_atoms_generic p₂ p₁ u w h₂ h₁ hu hw).2,
+    ratio_invert _ _ _⟩
+
+theorem not_scalable_all_powers (p₁ p₂ u₁ u₂ w₁ w₂ : Str) (h₁ : p₁ ∈ optPrefixes) (h₂ : p₂ ∈ optPrefixes)
+    (hu₁ : u₁ ∈ units) (hu₂ : u₂ ∈ units) (hw₁ : PowerText w₁) (hw₂ : PowerText w₂)
+    (hne : u₁ ≠ u₂ ∨ w₁.drop 1 ≠ w₂.drop 1) :
+    scalable (p₁ ++ u₁ ++ w₁) (p₂ ++ u₂ ++ w₂) = false ∧
+    scaling (p₁ ++ u₁ ++ w₁) (p₂ ++ u₂ ++ w₂) = .error .invalidUnit :=
+  not_scalable_atoms_generic p₁ p₂ u₁ u₂ w₁ w₂ h₁ h₂ hu₁ hu₂ hw₁ hw₂ hne
+
+/-- products and quotients of atoms with any power text are compound, whatever follows -/
+theorem compound_all_powers (p₁ u₁ w₁ p₂ u₂ w₂ : Str) (sep : Char) (tail : Str)
+    (h₁ : p₁ ∈ optPrefixes) (hu₁ : u₁ ∈ units) (hw₁ : PowerText w₁)
+    (h₂ : p₂ ∈ optPrefixes) (hu₂ : u₂ ∈ units) (hw₂ : PowerText w₂)
+    (hsep : sep = '*' ∨ sep = '/') :
+    isCompound ((p₁ ++ u₁ ++ w₁) ++ sep :: (p₂ ++ u₂ ++ w₂) ++ tail) = true ∧
+    isSi ((p₁ ++ u₁ ++ w₁) ++ sep :: (p₂ ++ u₂ ++ w₂) ++ tail) = true :=
+  compound_atoms_generic p₁ u₁ w₁ p₂ u₂ w₂ sep tail h₁ hu₁ hw₁ h₂ hu₂ hw₂ hsep
+
+/-! ## `scalable` as a relation on arbitrary strings -/
+
+/-- symmetric; transitive; reflexive exactly on the strings recognised as SI -/
+theorem scalable_equivalence :
+    (∀ a b : Str, scalable a b = scalable b a) ∧
+    (∀ a b c : Str, scalable a b = true → scalable b c = true → scalable a c = true) ∧
+    (∀ a : Str, scalable a a = isSi a) :=
+  ⟨scalable_symm, scalable_trans, scalable_refl⟩
+
+/-- converting any SI unit (atomic or compound) to itself is the identity -/
+theorem scaling_identity (a : Str) (h : isSi a = true) : scaling a a = .ok 1 := scaling_self a h
+
+/-- conversion is refused with `InvalidUnit` exactly for the pairs reported not scalable -/
+theorem scaling_refused_iff_not_scalable (a b : Str) :
+    scaling a b = .error .invalidUnit ↔ scalable a b = false := scaling_refused_iff a b
+
 /-! Non-vacuity: the hypotheses are met by concrete table entries. -/
 example : (['m'] ∈ optPrefixes) ∧ (['m', 'o', 'l'] ∈ units) ∧ (['^', '-', '2'] ∈ powerTexts) := by
   decide
 example : scaling "mV".toList "uV".toList = .ok 1000 := by decide +kernel
 example : split "mmol^-2".toList = ("m".toList, "mol".toList, "-2".toList) := by decide +kernel
 example : sanitizer "m mµ V".toList = "uV".toList := by decide +kernel
+example : PowerText "^-1234567890".toList := .pow ['-'] '1' "234567890".toList (by simp) (by decide) (by decide)
+example : ∀ w ∈ powerTexts, PowerText w := powerTexts_PowerText
+example : split "damol^+120".toList = ("da".toList, "mol".toList, "+120".toList) := by decide +kernel
+example : scaling "mm^-12".toList "m^-12".toList = .ok ((10 : Rat) ^ (36 : Int)) := by decide +kernel
+example : scalable "mV/Hz".toList "mV/Hz".toList = true := by decide +kernel
 
 end Nix.C09
